@@ -342,6 +342,10 @@ def run(ctx):
     rd = ctx.rule('R06d', 'isa_l_min_fragments: terminator and return structure')
     c06.rule_planners(ctx, P, rc, rd, ('@backend_isa_l_rs_vand',))
     rc.require_min(2); rd.require_min(4)
+    r = ctx.rule('R06m', 'isa_l_min_fragments: the first k indexes that are neither requested nor excluded; an error iff fewer than k remain',
+                 'the ISA-L planner must give the same guarantee as the built-in codes, also for overlapping / duplicated lists')
+    c06.rule_rs_planner_values(ctx, P, r, ('@backend_isa_l_rs_vand', '@backend_isa_l_rs_cauchy'))
+    r.require_min(1)
     r = ctx.rule('R13d', 'ISA-L word size is a positive multiple of 8 before use; element size equals it (R08a under C08)')
     shared.rule_isal_w(ctx, P, r)
     r.require_min(1)
